@@ -136,10 +136,11 @@ const (
 	sAU
 	sBV
 	sRA
+	sBVL // BindAndValidate with a route value freshly obtained from Context.LookupRoute (not the one RouteInfo cached)
 	nSteps
 )
 
-var stepNames = []string{"RouteInfo", "ContentType", "ResponseFormat", "Authorize", "BindAndValidate", "ResetAuth"}
+var stepNames = []string{"RouteInfo", "ContentType", "ResponseFormat", "Authorize", "BindAndValidate", "ResetAuth", "BindAndValidate"}
 
 type countingBody struct {
 	data   []byte
@@ -464,12 +465,19 @@ func serveProgram(srv *server, p *reqPlan) record {
 				sc := append([]string(nil), middleware.SecurityScopesFrom(r)...)
 				sort.Strings(sc)
 				steps = append(steps, fmt.Sprintf("Authorize: principal=%v scopes=%v admitting=%v err=%d", princ, sc, adm, code))
-			case sBV:
+			case sBV, sBVL:
 				if !haveRoute {
 					continue
 				}
+				useRoute := route
+				if st == sBVL {
+					// another asker down the line looked the route up itself: same route, another value
+					if lr, ok := ctx.LookupRoute(r); ok {
+						useRoute = lr
+					}
+				}
 				beforeC, beforeR := len(s.Consumers), bodyReads()
-				bound, r2, err := ctx.BindAndValidate(r, route)
+				bound, r2, err := ctx.BindAndValidate(r, useRoute)
 				digest := boundDigest(bound, err)
 				if haveBV {
 					if len(s.Consumers) != beforeC {
@@ -601,7 +609,7 @@ func (prop) Run(t *testing.T, tape *kernel.Tape, sc kernel.Scenario) *kernel.Res
 			p.program = []int{sRI}
 			ln := 2 + tape.Choose(8, "prog-len")
 			for j := 0; j < ln; j++ {
-				p.program = append(p.program, tape.Weighted("step", 1, 2, 2, 4, 4, 1))
+				p.program = append(p.program, tape.Weighted("step", 1, 2, 2, 4, 4, 1, 2))
 			}
 		}
 	}
@@ -696,7 +704,7 @@ func (prop) Run(t *testing.T, tape *kernel.Tape, sc kernel.Scenario) *kernel.Res
 func progString(p []int) string {
 	var s []string
 	for _, x := range p {
-		s = append(s, []string{"RI", "CT", "RF", "AU", "BV", "RA"}[x])
+		s = append(s, []string{"RI", "CT", "RF", "AU", "BV", "RA", "BVL"}[x])
 	}
 	return strings.Join(s, ">")
 }
